@@ -123,7 +123,7 @@ def benign_patches(prop=None):
 
     out = []
     d = Path(__file__).resolve().parent.parent / "benign"
-    for f in sorted(d.glob("R*.diff")):
+    for f in sorted(d.glob("[RST][0-9]*.diff")):
         rules_ = [n for n, r in RULES.items() if (prop is None or prop in r["props"]) and r["tier"] == "quick"]
         out.append({"name": f"benign-patch-{f.stem}", "props": [prop] if prop else [], "rules": rules_, "kind": "benign", "edits": [], "patch": str(f)})
     return out
